@@ -57,6 +57,17 @@ def sources(tier, seed, ctx):
                 if any(t in gen.NULLARY and ops for t, ops in net[1]):
                     variant = 'plain'
             srcs.append({'k': 'codec', 'net': [net[0], net[1]], 'outs': outs, 'variant': variant, 'vs': n + seed, 'db': n % 9 == 0})
+    # size boundaries of the word-size computation: gate-free circuits and short NOT chains whose input / gate /
+    # output counts sit at powers of two (and next to them), with fewer, as many and more outputs than inputs
+    for ni in range(1, 10):
+        for ng in (0, 1, 2, 3, 4, 7, 8, 9) if tier != 'quick' else (0, 1, 4, 8):
+            if ni + ng > 16:
+                continue
+            for no in sorted({0, 1, ni // 2, ni - 1, ni, ni + 1, 2 * ni}):
+                gs = [('NOT', [rng.randint(1, ni + k)]) for k in range(ng)]
+                outs = [rng.randint(1, ni + ng) for _ in range(no)]
+                srcs.append({'k': 'codec', 'net': [ni, gs], 'outs': outs, 'variant': 'plain', 'vs': ni * 100 + ng, 'db': (ni + ng + no) % 4 == 0, 'boundary': True})
+    note.append('size-boundary circuits (1..9 inputs, 0..9 NOT gates, 0..2n outputs)')
     nrand = 300 if tier == 'quick' else 5000
     for j in range(nrand):
         net = gen.random_netlist(rng, ni=rng.randint(0, 5), ng=rng.randint(1, 25), types=FORMAT_TYPES if j % 3 else gen.ALL18, amax=2 if j % 3 else 4)
